@@ -7,6 +7,16 @@ ROOT = os.path.dirname(HERE)
 
 # property -> (level category, technique, level text, level note, design ref)
 CHECKS = {
+    "C10": ("exploration",
+            "reference path validator over generator ground truth (no cryptography, none of gmsm's parser) compared with Verify on generated PKI topologies; every returned chain checked link by link",
+            "Generates PKI topologies (roots, re-issued/cross-signed/looping intermediates, same-name impostor keys, leaves) that are valid except for 0-4 injected faults (expired, not yet valid, non-CA, no basic constraints, path length, key usage, name constraints, corrupted signature, impostor, EKU, critical extension, missing from pool) and queries (time incl. boundary instants, host classes, usages, pool insertion order) perturbed in one dimension; Verify must return a chain exactly when the reference finds one inside the region the statement determines (32 interpretation variants must agree), and every returned chain is checked against ground truth.",
+            "Trusted: generator ground truth; gmsm CreateCertificate/ParseCertificate only as the means to materialise certificates (C09). Unspecified region listed in evidence assumptions.",
+            "DESIGN.md §5 C10"),
+    "C17": ("exploration",
+            "round-trip and wrong-holder monitors for enveloped data, ground-truth tamper monitors for signed data (library-built RSA and harness-built SM2 incl. reference-signed) and PKCS#12, per-byte substitution sweeps",
+            "Envelopes contents for 1..3 SM2 recipients (both content ciphers, both orderings) and RSA recipients and opens them with every recipient, a non-recipient, the wrong key, wrong ordering and a key of the other type; verifies signed data untouched and after content/attribute/signature/signer changes and after every single-byte substitution (must not verify unless content, signed attributes, signature integers and certified key are unchanged); PKCS#12 Encode/DecodeAll/ToPEM with password classes, wrong passwords and byte substitutions (error or same key and certificate).",
+            "Trusted: ground-truth contents/keys, /verif/ref SM2 signing, encoding/asn1 mirror structures. CBC-enveloped content has no integrity protection: mutated CBC envelopes are only required not to panic.",
+            "DESIGN.md §5 C17"),
     "C01": ("exploration",
             "reference-model monitor on recorded sign/verify executions: nonce recovery k'=s(1+d)+rd, recomputation of r from GM/T 0003.2, nonce/reader-consumption monitor, differential rejection against a reference verifier and strict DER reader",
             "Signs (key class x message length x ID class x nonce stream) through Sm2Sign and PrivateKey.Sign with a recording reader; for each signature the monitor recovers the nonce the signature implies and checks (r,s) is the pair the standard prescribes, that equal reader bytes give equal signatures, that different streams never share r or nonce, that all three verifiers accept; then every single-field perturbation of valid tuples (message, ID, key, r, s, DER manglings) is given to gmsm and to the reference: gmsm must reject whatever the standard rejects.",
